@@ -113,6 +113,37 @@ def streams(tier, rng, P, only=None, cases=None):
         return None
     s3 = Stream("cli", cases if (cases and only == "cli") else mk_cli(), cli_model, cli_judge, lambda c, i, m: c.get("_cli", "")[:200] if i[0] == "ok" else None,
                 "the command-line tool writing over an existing output file", timeout_case=30.0)
-    for s in (s1, s2, s3):
+    # ---- one compiler object used for several sources: each file is the file of its own source (division, track count, chunks)
+    def mk_obj():
+        cs = []
+        firsts = ["TimeBase=480", "TimeBase(960)", "TIMEBASE=48", "TimeBase(192) // header only", "TR=5", "TR=3 l8", "INT A=3", "STR S={c}", "#M={d e}", "l8 o3 v50 q10", "TimeBase=480 TR=2",
+                  "TimeBase(960) c", "TR=7 c d", "Function F(){ c } ", "KeyFlag+(fc)", "TimeSignature(3,4)"]
+        seconds = ["l4 cde", "c", "TR=1 c", "o5 [2 c d] e", "TimeBase(120) c", "r", ""]
+        for i in range(200 if big else 40):
+            a = rng.choice(firsts); b = rng.choice(seconds)
+            cs.append(dict(req="objseq en 0 %s %s %s" % (hx(a), hx(b), hx(b)), src=b, first=a, show="[one object] %s   then   %s" % (a, b), key="obj%d" % i))
+        return cs
+    def obj_model(c, status, f):
+        if status != "ok": return []
+        return ["compile-ref " + c["src"]]
+    def obj_judge(c, impl, m):
+        st, f = impl
+        if st != "ok": return ("violation", "the object API did not return: " + st)
+        b = f.get("bins", "").split(",")
+        if len(b) != 3: return ("mismatch", "unexpected objseq reply")
+        if b[1] != b[2]: return ("violation", "one object, the same source twice: different files")
+        ref = c.get("_ref")
+        if ref is not None and b[1] != ref: return ("violation", "the file of a source compiled on a used object differs from the file of that source (header %s vs %s)" % (b[1][16:28], ref[16:28]))
+        return None
+    ocases = cases if (cases and only == "object") else mk_obj()
+    if ocases and "_ref" not in ocases[0]:
+        from ..core import run_oracle, parse_resp
+        refs = run_oracle(P, ["compile %s 0 en lib" % hx(c["src"]) for c in ocases], 20.0, tag="c01o")
+        for c, r_ in zip(ocases, refs):
+            st_, f_ = parse_resp(r_)
+            c["_ref"] = f_.get("bin") if st_ == "ok" else None
+    s4 = Stream("object", ocases, lambda c, st, f: [], obj_judge, lambda c, i, m: i[1].get("bins") if i[0] == "ok" else None,
+                "one SakuraCompiler object, several sources: each file is its own source's file", timeout_case=30.0)
+    for s in (s1, s2, s3, s4):
         if only in (None, s.name): out.append(s)
     return out
